@@ -723,7 +723,13 @@ func runPrefix(hid int, p prefix, rng *rand.Rand, rec *Recorder, reps int) {
 	}
 	// report construction is a query too (v3): it must not modify the object
 	if p.Fam == "v3" {
-		for n, h := range vars {
+		vnames := make([]string, 0, len(vars))
+		for n := range vars {
+			vnames = append(vnames, n)
+		}
+		sort.Strings(vnames)
+		for _, n := range vnames {
+			h := vars[n]
 			if h.isNil() {
 				continue // report.New* on nil metrics is outside the property's wording
 			}
